@@ -475,6 +475,20 @@ Proof.
   apply (Hgen rounds (repeat [] n) []); auto. intros x Hx. now apply repeat_spec in Hx.
 Qed.
 
+(* the running sum of weights of every walker = its initial value plus every contribution of every walker of
+   every round, each exactly once *)
+Lemma opes_sums_total : forall (A : Type) (G : GrpOps A), GrpLaws G ->
+  forall (rounds : list (list A)) (s : A), opes_sums G s rounds = fold_left (gadd G) (concat rounds) s.
+Proof.
+  intros A G HL.
+  assert (Hf : forall l a b, fold_left (gadd G) l (gadd G a b) = gadd G a (fold_left (gadd G) l b)).
+  { induction l as [|x tl IH]; intros a b; cbn [fold_left]; [reflexivity|]. now rewrite (gl_assoc G HL), IH. }
+  assert (Hr : forall hs s, opes_sum_round G s hs = fold_left (gadd G) hs s).
+  { intros [|h0 tl] s; cbn [opes_sum_round fold_left]; [reflexivity|]. now rewrite Hf. }
+  induction rounds as [|r tl IH]; intros s; cbn [opes_sums fold_left concat]; [reflexivity|].
+  fold (opes_sums G (opes_sum_round G s r) tl). rewrite IH, Hr. now rewrite fold_left_app.
+Qed.
+
 (* ------------------------------------------------------------------------------------------- *)
 (* (b) file-based multiple-walker metadynamics                                                  *)
 (* ------------------------------------------------------------------------------------------- *)
@@ -550,24 +564,32 @@ Proof.
   cbn [filter]. unfold keep at 1. destruct (Z.ltb_spec s (hit h)); [now rewrite IH|lia].
 Qed.
 
+Definition cont_of (st : pstate) : list hill := match snd st with Some m => m_cont m | None => [] end.
+
 (* ---- invariants *)
+(* F = what has been written after the state file in place: the records of the hills file, or (between the
+   two halves of a state-file rewrite) the records of the hills file that has just been removed *)
+Definition wF (w : writer) : list hill := w_lost w ++ w_file w.
+
 Definition WInv (w : writer) : Prop :=
-  w_D w = sf_hills (w_state w) ++ w_file w /\
-  Forall (fun h => sf_step (w_state w) < hit h) (w_file w) /\
+  w_D w = sf_hills (w_state w) ++ wF w /\
+  (w_lost w = [] \/ (w_file w = [] /\ w_vis w = 0)) /\
+  Forall (fun h => sf_step (w_state w) < hit h) (wF w) /\
   0 <= w_vis w <= Z.of_nat (length (w_file w)).
 
+(* the mirror holds the state file that is in place (whatever file names it remembers: a change of names only
+   forces it to read the state file again) *)
 Definition current (w : writer) (m : mirror) : Prop :=
-  m_name m = Some (w_name w) /\ m_S m = sf_step (w_state w).
+  m_has m = true /\ m_S m = sf_step (w_state w).
 
 Definition MInv (w : writer) (om : option mirror) : Prop :=
   match om with
   | None => True
   | Some m =>
-      m_has m = true /\
-      (forall k, m_name m = Some k -> k <= w_name w) /\
-      (m_name m = Some (w_name w) -> m_S m <= sf_step (w_state w)) /\
-      (current w m -> m_cont m = sf_hills (w_state w) ++ firstn (Z.to_nat (m_pos m)) (w_file w) /\
-                      0 <= m_pos m <= Z.of_nat (length (w_file w))) /\
+      (m_has m = false -> m_cont m = []) /\
+      (m_has m = true -> m_S m <= sf_step (w_state w)) /\
+      (current w m -> m_cont m = sf_hills (w_state w) ++ firstn (Z.to_nat (m_pos m)) (wF w) /\
+                      0 <= m_pos m <= Z.of_nat (length (wF w))) /\
       (~ current w m -> prefix (m_cont m) (sf_hills (w_state w)))
   end.
 
@@ -575,158 +597,19 @@ Definition pinv (st : pstate) : Prop := WInv (fst st) /\ MInv (fst st) (snd st).
 
 Lemma current_dec : forall w m, current w m \/ ~ current w m.
 Proof.
-  intros w m. unfold current. destruct (m_name m) as [k|].
-  - destruct (Z.eq_dec k (w_name w)) as [->|Hk]; destruct (Z.eq_dec (m_S m) (sf_step (w_state w))) as [HS|HS].
-    + left; auto.
-    + right; intros [_ H]; auto.
-    + right; intros [H _]; congruence.
-    + right; intros [H _]; congruence.
-  - right. intros [H _]. discriminate.
+  intros w m. unfold current. destruct (m_has m); [|right; intros [H _]; discriminate].
+  destruct (Z.eq_dec (m_S m) (sf_step (w_state w))) as [HS|HS]; [left; auto|right; intros [_ H]; auto].
 Qed.
 
 Lemma pinv_init : pinv pinit.
 Proof.
-  unfold pinv, pinit, WInv, wr_init; cbn. repeat split; auto; try lia.
+  unfold pinv, pinit, WInv, wr_init, wF; cbn. repeat split; auto; try lia.
 Qed.
 
 Lemma forallb_le : forall s l, forallb (fun x => hit x <=? s) l = true -> Forall (fun x => hit x <= s) l.
 Proof.
   intros s l H. apply Forall_forall. intros x Hx. rewrite forallb_forall in H.
   specialize (H x Hx). lia.
-Qed.
-
-(* a state file written at the same step as the one in place: nothing was deposited in between *)
-Lemma same_step_file_empty : forall w s, WInv w -> sf_step (w_state w) = s ->
-  Forall (fun x => hit x <= s) (w_D w) -> w_file w = [].
-Proof.
-  intros w s (HD & HF & _) Hs Hle. rewrite HD in Hle. apply Forall_app in Hle. destruct Hle as [_ Hle].
-  destruct (w_file w) as [|h tl]; auto.
-  inversion HF as [|? ? H1 _]; inversion Hle as [|? ? H2 _]; subst. lia.
-Qed.
-
-(* writer events that replace the state file (and restart the hills file) *)
-Lemma MInv_newstate : forall w m s nn, WInv w -> MInv w (Some m) ->
-  sf_step (w_state w) <= s -> Forall (fun x => hit x <= s) (w_D w) ->
-  MInv (wr_setup w s nn) (Some m) /\ MInv (wr_state w s) (Some m).
-Proof.
-  intros w m s nn HW (Hhas & Hk & HSle & Hcur & Hnc) Hs Hle.
-  assert (Hcommon : forall w', w_D w' = w_D w -> w_state w' = mkSF s (w_D w) -> w_file w' = [] ->
-            (w_name w' = w_name w \/ w_name w' = w_name w + 1) ->
-            MInv w' (Some m)).
-  { intros w' HD' Hst' Hf' Hn'. unfold MInv.
-    (* a mirror that is current for the new state file was current for the old one, written at the same step *)
-    assert (Hsame : current w' m -> current w m /\ w_file w = []).
-    { intros [Hn HS]. rewrite Hst' in HS; cbn [sf_step] in HS.
-      destruct Hn' as [Hn'|Hn']; [|specialize (Hk _ Hn); lia].
-      rewrite Hn' in Hn. specialize (HSle Hn).
-      assert (E : sf_step (w_state w) = s) by lia.
-      split; [split; auto; lia|]. apply (same_step_file_empty w s HW E Hle). }
-    split; [auto|]. split; [|split; [|split]].
-    - intros k Hkk. specialize (Hk k Hkk). destruct Hn' as [-> | ->]; lia.
-    - intros Hname. rewrite Hst'; cbn [sf_step]. destruct Hn' as [Hn'|Hn'].
-      + rewrite Hn' in Hname. specialize (HSle Hname). lia.
-      + specialize (Hk _ Hname). lia.
-    - intros Hc'. destruct (Hsame Hc') as (Hc & Hfe). destruct (Hcur Hc) as (Hcont & Hp).
-      rewrite Hst', Hf'; cbn [sf_hills length]. rewrite firstn_nil, app_nil_r.
-      rewrite Hfe in Hp, Hcont. cbn [length] in Hp. rewrite firstn_nil, app_nil_r in Hcont.
-      destruct HW as (HD & _). rewrite HD, Hfe, app_nil_r. split; auto.
-    - intros Hnc'. rewrite Hst'; cbn [sf_hills]. destruct HW as (HD & _).
-      destruct (current_dec w m) as [Hc|Hc].
-      + destruct (Hcur Hc) as (Hcont & _). rewrite Hcont, HD. apply prefix_app_l. apply firstn_prefix.
-      + specialize (Hnc Hc). rewrite HD. eapply prefix_trans; [exact Hnc|]. apply prefix_app. }
-  split; apply Hcommon; cbn; auto. destruct nn; auto.
-Qed.
-
-Lemma WInv_newstate : forall w s nn, WInv w -> WInv (wr_setup w s nn) /\ WInv (wr_state w s).
-Proof.
-  intros w s nn _. unfold WInv, wr_setup, wr_state; cbn. rewrite app_nil_r. repeat split; auto; lia.
-Qed.
-
-(* one replica_share() of the reader (both repairs in place) *)
-Lemma share_spec : forall w om, WInv w -> MInv w om -> w_reg w = true ->
-  exists m, share true true w om = Some m /\
-    current w m /\ m_has m = true /\ m_sync m = true /\
-    m_cont m = sf_hills (w_state w) ++ firstn (Z.to_nat (m_pos m)) (w_file w) /\
-    w_vis w <= m_pos m <= Z.of_nat (length (w_file w)).
-Proof.
-  intros w om (HD & HF & Hv) HM Hreg.
-  unfold share. rewrite Hreg. cbn [negb].
-  set (m0 := match om with None => m_new | Some m => m end).
-  set (m1 := if name_is (m_name m0) (w_name w) then m0
-             else mkM (Some (w_name w)) false (m_has m0) (m_pos m0) (m_S m0) (m_cont m0)).
-  set (m2 := if true && m_has m1 && m_sync m1 && negb (sf_step (w_state w) =? m_S m1)
-             then mkM (m_name m1) false (m_has m1) (m_pos m1) (m_S m1) (m_cont m1) else m1).
-  set (m3 := if negb (m_has m2) || negb (m_sync m2)
-             then mkM (m_name m2) true true 0 (sf_step (w_state w)) (sf_hills (w_state w)) else m2).
-  (* m3 is a current mirror that holds the state file and the first m_pos records *)
-  assert (H3 : current w m3 /\ m_has m3 = true /\ m_sync m3 = true /\
-               m_cont m3 = sf_hills (w_state w) ++ firstn (Z.to_nat (m_pos m3)) (w_file w) /\
-               0 <= m_pos m3 <= Z.of_nat (length (w_file w))).
-  { assert (Hn1 : m_name m1 = Some (w_name w)).
-    { unfold m1. destruct (name_is (m_name m0) (w_name w)) eqn:E; cbn [m_name]; auto.
-      unfold name_is in E. destruct (m_name m0) as [k|]; [|discriminate]. apply Z.eqb_eq in E. now subst. }
-    assert (Hn2 : m_name m2 = Some (w_name w)).
-    { unfold m2. destruct (true && m_has m1 && m_sync m1 && negb (sf_step (w_state w) =? m_S m1)); auto. }
-    destruct (negb (m_has m2) || negb (m_sync m2)) eqn:Ere.
-    - (* the state file is (re)read *)
-      unfold m3. try rewrite Ere. cbn [m_name m_has m_sync m_pos m_cont m_S]. unfold current; cbn [m_name m_S].
-      rewrite firstn_O, app_nil_r. repeat split; auto; lia.
-    - (* not reread: the mirror was current and in sync *)
-      unfold m3. try rewrite Ere. apply orb_false_elim in Ere. destruct Ere as [Eh Es].
-      apply negb_false_iff in Eh. apply negb_false_iff in Es.
-      assert (E21 : m2 = m1 /\ (sf_step (w_state w) =? m_S m1) = true).
-      { unfold m2 in *. destruct (true && m_has m1 && m_sync m1 && negb (sf_step (w_state w) =? m_S m1)) eqn:E.
-        - cbn [m_sync] in Es. discriminate.
-        - split; auto. cbn [andb] in E. rewrite Eh, Es in E. cbn [andb] in E. now apply negb_false_iff in E. }
-      destruct E21 as [E21 ES]. rewrite E21 in *. apply Z.eqb_eq in ES.
-      assert (E10 : m1 = m0).
-      { unfold m1 in *. destruct (name_is (m_name m0) (w_name w)); auto. cbn [m_sync] in Es. discriminate. }
-      rewrite E10 in *. destruct om as [m|].
-      + subst m0. destruct HM as (Hhas & Hk & HSle & Hcur & Hnc).
-        assert (Hc : current w m) by (split; auto).
-        destruct (Hcur Hc) as (Hcont & Hp). repeat split; auto; lia.
-      + subst m0. cbn in Eh. discriminate. }
-  destruct H3 as (Hc3 & Hh3 & Hs3 & Hcont3 & Hp3).
-  destruct (Z.leb_spec (m_pos m3) (w_vis w)) as [Hle|Hgt].
-  - eexists. split; [reflexivity|]. cbn [m_name m_has m_sync m_pos m_cont m_S].
-    split; [exact Hc3|]. repeat split; auto; try lia.
-    rewrite Hcont3, <- app_assoc. f_equal.
-    rewrite filter_keep_all.
-    + apply firstn_sub. lia.
-    + destruct Hc3 as [_ ->]. unfold sub. apply Forall_firstn_, Forall_skipn_. exact HF.
-  - exists m3. repeat split; auto; try lia; apply Hc3.
-Qed.
-
-Lemma MInv_of_share : forall w m, WInv w -> w_reg w = true ->
-  current w m -> m_has m = true ->
-  m_cont m = sf_hills (w_state w) ++ firstn (Z.to_nat (m_pos m)) (w_file w) ->
-  0 <= m_pos m <= Z.of_nat (length (w_file w)) -> MInv w (Some m).
-Proof.
-  intros w m HW Hreg Hc Hh Hcont Hp. unfold MInv. destruct Hc as [Hn HS].
-  repeat split; auto; try lia.
-  - intros k Hk. rewrite Hn in Hk. injection Hk as <-. lia.
-  - intros Hnc. exfalso. apply Hnc. split; auto.
-Qed.
-
-Lemma MInv_deposit : forall w om h, MInv w om -> MInv (wr_deposit w h) om.
-Proof.
-  intros w [m|] h H; [|exact I]. destruct H as (Hhas & Hk & HSle & Hcur & Hnc).
-  unfold MInv, wr_deposit, current in *; cbn [w_name w_state w_file] in *. repeat split; auto.
-  - destruct (Hcur H) as (Hc & Hp). rewrite Hc. f_equal.
-    rewrite firstn_app. replace (Z.to_nat (m_pos m) - length (w_file w))%nat with 0%nat by lia.
-    now rewrite firstn_O, app_nil_r.
-  - destruct (Hcur H); lia.
-  - destruct (Hcur H) as (_ & Hp). rewrite app_length. cbn [length]. lia.
-Qed.
-
-Lemma WInv_deposit : forall w h, WInv w -> sf_step (w_state w) < hit h -> WInv (wr_deposit w h).
-Proof.
-  intros w h (HD & HF & Hv) Hh. unfold WInv, wr_deposit; cbn [w_D w_state w_file w_vis].
-  repeat split.
-  - rewrite HD. now rewrite app_assoc.
-  - apply Forall_app. split; auto.
-  - lia.
-  - rewrite app_length. cbn [length]. lia.
 Qed.
 
 Lemma steps_ok_spec : forall w s, steps_ok w s = true ->
@@ -736,148 +619,234 @@ Proof.
   apply Z.leb_le in H1. apply forallb_le in H2. auto.
 Qed.
 
-(* the events other than the two halves of a state-file rewrite, from a state whose hills file is fresh *)
-Lemma pinv_step0 : forall st e, pinv st -> ev_ok true (fst st) e = true ->
-  (forall s, e <> PWStateA s) -> e <> PWStateB -> pinv (pstep true true st e).
+Lemma is_nil_spec : forall l, is_nil l = true -> l = [].
+Proof. intros [|x l] H; [reflexivity|discriminate]. Qed.
+
+(* a state file written at the same step as the one in place: nothing was deposited in between *)
+Lemma same_step_F_empty : forall w s, WInv w -> sf_step (w_state w) = s ->
+  Forall (fun x => hit x <= s) (w_D w) -> wF w = [].
 Proof.
-  intros [w om] e [HW HM] Hok HA HB. cbn [fst snd] in *.
-  destruct e as [h|c|s|s| |s nn| | |]; cbn [pstep ev_ok] in *.
-  - apply andb_true_iff in Hok. destruct Hok as [_ Hok]. apply Z.ltb_lt in Hok.
+  intros w s (HD & _ & HF & _) Hs Hle. rewrite HD in Hle. apply Forall_app in Hle. destruct Hle as [_ Hle].
+  destruct (wF w) as [|h tl]; auto.
+  inversion HF as [|? ? H1 _]; inversion Hle as [|? ? H2 _]; subst. lia.
+Qed.
+
+(* the state file is replaced by (s, everything deposited) and nothing is left outside it *)
+Lemma MInv_newstate : forall w w' m s, WInv w -> MInv w (Some m) ->
+  sf_step (w_state w) <= s -> Forall (fun x => hit x <= s) (w_D w) ->
+  w_state w' = mkSF s (w_D w) -> wF w' = [] ->
+  MInv w' (Some m).
+Proof.
+  intros w w' m s HW (Hnd & HSle & Hcur & Hnc) Hs Hle Hst' Hf'. unfold MInv.
+  assert (Hsame : current w' m -> current w m /\ wF w = []).
+  { intros (Hh & HS). rewrite Hst' in HS; cbn [sf_step] in HS. specialize (HSle Hh).
+    assert (E : sf_step (w_state w) = s) by lia.
+    split; [split; auto; lia|]. apply (same_step_F_empty w s HW E Hle). }
+  split; [auto|]. split; [|split].
+  - intros Hh. rewrite Hst'; cbn [sf_step]. specialize (HSle Hh). lia.
+  - intros Hc'. destruct (Hsame Hc') as (Hc & Hfe). destruct (Hcur Hc) as (Hcont & Hp).
+    rewrite Hst', Hf'; cbn [sf_hills length]. rewrite firstn_nil, app_nil_r.
+    rewrite Hfe in Hp, Hcont. cbn [length] in Hp. rewrite firstn_nil, app_nil_r in Hcont.
+    destruct HW as (HD & _). rewrite HD, Hfe, app_nil_r. split; auto.
+  - intros Hnc'. rewrite Hst'; cbn [sf_hills]. destruct HW as (HD & _).
+    destruct (current_dec w m) as [Hc|Hc].
+    + destruct (Hcur Hc) as (Hcont & _). rewrite Hcont, HD. apply prefix_app_l. apply firstn_prefix.
+    + specialize (Hnc Hc). rewrite HD. eapply prefix_trans; [exact Hnc|]. apply prefix_app.
+Qed.
+
+Lemma WInv_newstate : forall w w' s, w_D w' = w_D w -> w_state w' = mkSF s (w_D w) ->
+  w_lost w' = [] -> w_file w' = [] -> w_vis w' = 0 -> WInv w'.
+Proof.
+  intros w w' s HD Hst Hl Hf Hv. unfold WInv, wF. rewrite HD, Hst, Hl, Hf, Hv. cbn. rewrite app_nil_r.
+  repeat split; auto; lia.
+Qed.
+
+(* the invariant of a mirror only looks at these parts of the writer *)
+Lemma MInv_ext : forall w w' om, w_state w' = w_state w -> wF w' = wF w -> MInv w om -> MInv w' om.
+Proof.
+  intros w w' [m|] Hst HF H; [|exact I]. unfold MInv, current in *. rewrite Hst, HF. exact H.
+Qed.
+
+(* one replica_share() of the reader (all repairs in place) when the peer's state file is all there *)
+Lemma share_spec : forall w om, WInv w -> MInv w om -> w_reg w = true -> w_sok w = true ->
+  exists m, share true true w om = Some m /\
+    current w m /\ m_sync m = true /\
+    m_cont m = sf_hills (w_state w) ++ firstn (Z.to_nat (m_pos m)) (wF w) /\
+    0 <= m_pos m <= Z.of_nat (length (wF w)) /\
+    (w_lost w = [] -> w_vis w <= m_pos m).
+Proof.
+  intros w om (HD & Hlf & HF & Hv) HM Hreg Hsok.
+  unfold share. rewrite Hreg, Hsok. cbn [negb].
+  set (m0 := match om with None => m_new | Some m => m end).
+  set (m1 := if name_is (m_name m0) (w_name w) then m0
+             else mkM (Some (w_name w)) false (m_has m0) (m_pos m0) (m_S m0) (m_cont m0)).
+  set (m2 := if true && m_has m1 && m_sync m1 && negb (sf_step (w_state w) =? m_S m1)
+             then mkM (m_name m1) false (m_has m1) (m_pos m1) (m_S m1) (m_cont m1) else m1).
+  set (m3 := if negb (m_has m2) || negb (m_sync m2)
+             then mkM (m_name m2) true true 0 (sf_step (w_state w)) (sf_hills (w_state w)) else m2).
+  assert (H3 : current w m3 /\ m_sync m3 = true /\
+               m_cont m3 = sf_hills (w_state w) ++ firstn (Z.to_nat (m_pos m3)) (wF w) /\
+               0 <= m_pos m3 <= Z.of_nat (length (wF w))).
+  { destruct (negb (m_has m2) || negb (m_sync m2)) eqn:Ere.
+    - unfold m3. try rewrite Ere. cbn [m_name m_has m_sync m_pos m_cont m_S]. unfold current; cbn [m_S m_has].
+      rewrite firstn_O, app_nil_r. repeat split; auto; lia.
+    - unfold m3. try rewrite Ere. apply orb_false_elim in Ere. destruct Ere as [Eh Es].
+      apply negb_false_iff in Eh. apply negb_false_iff in Es.
+      assert (E21 : m2 = m1 /\ (sf_step (w_state w) =? m_S m1) = true).
+      { unfold m2 in *. destruct (true && m_has m1 && m_sync m1 && negb (sf_step (w_state w) =? m_S m1)) eqn:E.
+        - cbn [m_sync] in Es. discriminate.
+        - split; auto. cbn [andb] in E. rewrite Eh, Es in E. cbn [andb] in E. now apply negb_false_iff in E. }
+      destruct E21 as [E21 ES]. rewrite E21 in *. apply Z.eqb_eq in ES.
+      assert (E10 : m1 = m0).
+      { unfold m1 in *. destruct (name_is (m_name m0) (w_name w)); auto. cbn [m_sync] in Es. discriminate. }
+      rewrite E10 in *. destruct om as [m|].
+      + subst m0. destruct HM as (Hnd & HSle & Hcur & Hnc).
+        assert (Hc : current w m) by (split; auto).
+        destruct (Hcur Hc) as (Hcont & Hp). repeat split; auto; lia.
+      + subst m0. cbn in Eh. discriminate. }
+  destruct H3 as (Hc3 & Hs3 & Hcont3 & Hp3).
+  destruct (Z.leb_spec (m_pos m3) (w_vis w)) as [Hle|Hgt].
+  - eexists. split; [reflexivity|]. cbn [m_name m_has m_sync m_pos m_cont m_S].
+    destruct Hlf as [Hl | [Hf Hv0]].
+    + assert (EF : wF w = w_file w) by (unfold wF; now rewrite Hl). rewrite EF in *.
+      split; [destruct Hc3; split; auto|]. repeat split; auto; try lia.
+      rewrite Hcont3, <- app_assoc. f_equal. rewrite filter_keep_all.
+      * apply firstn_sub. lia.
+      * destruct Hc3 as (_ & ->). unfold sub. apply Forall_firstn_, Forall_skipn_. exact HF.
+    + assert (Ep : m_pos m3 = 0) by lia.
+      split; [destruct Hc3; split; auto|]. rewrite Hf. unfold sub. rewrite skipn_nil, firstn_nil. cbn [filter].
+      rewrite app_nil_r. rewrite Hv0. rewrite Ep in *. repeat split; auto; try lia.
+  - exists m3. repeat split; auto; try lia; apply Hc3.
+Qed.
+
+Lemma MInv_of_current : forall w m, current w m ->
+  m_cont m = sf_hills (w_state w) ++ firstn (Z.to_nat (m_pos m)) (wF w) ->
+  0 <= m_pos m <= Z.of_nat (length (wF w)) -> MInv w (Some m).
+Proof.
+  intros w m Hc Hcont Hp. unfold MInv. destruct Hc as (Hh & HS).
+  repeat split; auto; try lia.
+  - intros Hf. congruence.
+  - intros Hnc. exfalso. apply Hnc. split; auto.
+Qed.
+
+(* the same when the peer's state file is only partly visible: the mirror may be created or told about new
+   file names; nothing is read, nothing it holds changes *)
+Lemma share_partial_state : forall w om, MInv w om -> w_reg w = true -> w_sok w = false ->
+  exists m, share true true w om = Some m /\ MInv w (Some m) /\
+    m_cont m = match om with Some m0 => m_cont m0 | None => [] end.
+Proof.
+  intros w om HM Hreg Hsok. unfold share. rewrite Hreg, Hsok. cbn [negb].
+  set (m0 := match om with None => m_new | Some m => m end).
+  assert (HM0 : MInv w (Some m0)).
+  { destruct om as [m|]; [exact HM|]. subst m0. unfold MInv, m_new, current; cbn [m_has m_cont m_S m_pos].
+    split; [auto|]. split; [discriminate|]. split; [intros [H0 _]; discriminate|].
+    intros _. exists (sf_hills (w_state w)). reflexivity. }
+  assert (Hc0 : m_cont m0 = match om with Some m0 => m_cont m0 | None => [] end) by (destruct om; reflexivity).
+  destruct (name_is (m_name m0) (w_name w)); eexists; (split; [reflexivity|]); split; auto.
+Qed.
+
+Lemma MInv_deposit : forall w om h, w_lost w = [] -> MInv w om -> MInv (wr_deposit w h) om.
+Proof.
+  intros w [m|] h Hl H; [|exact I]. destruct H as (Hnd & HSle & Hcur & Hnc).
+  unfold MInv, wr_deposit, current, wF in *; cbn [w_state w_file w_lost] in *. rewrite Hl in *. cbn [app] in *.
+  repeat split; auto.
+  - destruct (Hcur H) as (Hc & Hp). rewrite Hc. f_equal.
+    rewrite firstn_app. replace (Z.to_nat (m_pos m) - length (w_file w))%nat with 0%nat by lia.
+    now rewrite firstn_O, app_nil_r.
+  - destruct (Hcur H); lia.
+  - destruct (Hcur H) as (_ & Hp). rewrite app_length. cbn [length]. lia.
+Qed.
+
+Lemma WInv_deposit : forall w h, WInv w -> w_lost w = [] -> sf_step (w_state w) < hit h -> WInv (wr_deposit w h).
+Proof.
+  intros w h (HD & Hlf & HF & Hv) Hl Hh. unfold WInv, wr_deposit, wF in *; cbn [w_D w_state w_file w_vis w_lost] in *.
+  rewrite Hl in *. cbn [app] in *. repeat split; auto.
+  - rewrite HD. now rewrite app_assoc.
+  - apply Forall_app. split; auto.
+  - lia.
+  - rewrite app_length. cbn [length]. lia.
+Qed.
+
+Lemma WInv_fresh : forall w, WInv w -> file_fresh w = true.
+Proof.
+  intros w (_ & _ & HF & _). unfold file_fresh. apply forallb_forall. intros h Hh.
+  rewrite Forall_forall in HF. apply Z.ltb_lt. apply HF. unfold wF. apply in_or_app. auto.
+Qed.
+
+Lemma writer_eq : forall a b, w_D a = w_D b -> w_reg a = w_reg b -> w_name a = w_name b ->
+  w_state a = w_state b -> w_file a = w_file b -> w_vis a = w_vis b -> w_lost a = w_lost b ->
+  w_sok a = w_sok b -> a = b.
+Proof. intros [] []; cbn; intros; subst; reflexivity. Qed.
+
+(* one event of the repaired protocol (restart the hills file, then rename the state file) *)
+Lemma pinv_step : forall st e, pinv st -> ev_ok true (fst st) e = true -> pinv (pstep true true st e).
+Proof.
+  intros [w om] e [HW HM] Hok. cbn [fst snd] in *.
+  destruct e as [h|c|s|s| |b|s nn| | |]; cbn [pstep ev_ok] in *.
+  - (* deposit *)
+    apply andb_true_iff in Hok. destruct Hok as [Hok H3]. apply andb_true_iff in Hok. destruct Hok as [H1 _].
+    apply is_nil_spec in H1. apply Z.ltb_lt in H3.
     split; cbn [fst snd]; [apply WInv_deposit|apply MInv_deposit]; auto.
-  - split; cbn [fst snd].
-    + destruct HW as (HD & HF & Hv). unfold WInv, wr_vis; cbn [w_D w_state w_file w_vis]. repeat split; auto; lia.
-    + destruct om as [m|]; [|exact I]. exact HM.
-  - apply andb_true_iff in Hok. destruct Hok as [_ Hok]. destruct (steps_ok_spec _ _ Hok) as [H1 H2].
-    split; cbn [fst snd]; [apply (WInv_newstate w s false HW)|].
-    destruct om as [m|]; [|exact I]. apply (MInv_newstate w m s false); auto.
-  - exfalso. apply (HA s). reflexivity.
-  - exfalso. apply HB. reflexivity.
-  - apply andb_true_iff in Hok. destruct Hok as [_ Hok]. destruct (steps_ok_spec _ _ Hok) as [H1 H2].
-    split; cbn [fst snd]; [apply (WInv_newstate w s nn HW)|].
-    destruct om as [m|]; [|exact I]. apply (MInv_newstate w m s nn); auto.
-  - split; cbn [fst snd]; auto.
+  - (* visibility of the hills file *)
+    split; cbn [fst snd].
+    + destruct HW as (HD & Hlf & HF & Hv). unfold WInv, wr_vis, wF in *; cbn [w_D w_state w_file w_vis w_lost] in *.
+      repeat split; auto; try lia. destruct Hlf as [Hl|[Hf Hv0]]; auto. right. split; auto. rewrite Hf. cbn [length]. lia.
+    + eapply MInv_ext; [| |exact HM]; reflexivity.
+  - (* state-file rewrite as one event *)
+    apply andb_true_iff in Hok. destruct Hok as [_ Hok]. destruct (steps_ok_spec _ _ Hok) as [H1 H2].
+    split; cbn [fst snd]; [eapply (WInv_newstate w); reflexivity|].
+    destruct om as [m|]; [|exact I]. eapply (MInv_newstate w); eauto.
+  - (* renaming the state file: the hills file has been restarted (or was empty) *)
+    apply andb_true_iff in Hok. destruct Hok as [Hn Hok]. apply is_nil_spec in Hn.
+    destruct (steps_ok_spec _ _ Hok) as [H1 H2].
+    assert (Hv0 : w_vis w = 0) by (destruct HW as (_ & _ & _ & Hv); rewrite Hn in Hv; cbn [length] in Hv; lia).
+    split; cbn [fst snd].
+    + eapply (WInv_newstate w); cbn; auto.
+    + destruct om as [m|]; [|exact I]. eapply (MInv_newstate w); eauto; try (unfold wF; cbn; now rewrite Hn).
+  - (* restarting the hills file: what it held stays outside every file until the state file is renamed *)
+    pose proof (WInv_fresh _ HW) as Hfr.
+    assert (Hfilt : filter (keep (sf_step (w_state w))) (w_file w) = w_file w).
+    { apply filter_keep_all. destruct HW as (_ & _ & HF & _). unfold wF in HF. apply Forall_app in HF. apply HF. }
+    assert (EF : wF (wr_state_b w) = wF w).
+    { unfold wF, wr_state_b; cbn [w_lost w_file]. now rewrite Hfilt, app_nil_r. }
+    split; cbn [fst snd].
+    + destruct HW as (HD & Hlf & HF & Hv). unfold WInv. rewrite EF. cbn [wr_state_b w_D w_state w_file w_vis w_lost].
+      repeat split; auto; try lia; cbn [length]; lia.
+    + eapply MInv_ext; [| |exact HM]; auto.
+  - (* visibility of the state file *)
+    split; cbn [fst snd].
+    + destruct HW as (HD & Hlf & HF & Hv). unfold WInv, wr_svis, wF in *; cbn in *. repeat split; auto; lia.
+    + eapply MInv_ext; [| |exact HM]; reflexivity.
+  - (* setup_output *)
+    apply andb_true_iff in Hok. destruct Hok as [_ Hok]. destruct (steps_ok_spec _ _ Hok) as [H1 H2].
+    split; cbn [fst snd]; [eapply (WInv_newstate w); reflexivity|].
+    destruct om as [m|]; [|exact I]. eapply (MInv_newstate w); eauto.
+  - (* the reader exchanges *)
+    split; cbn [fst snd]; auto.
     destruct (w_reg w) eqn:Hreg.
-    + destruct (share_spec w om HW HM Hreg) as (m & -> & Hc & Hh & _ & Hcont & Hp).
-      apply (MInv_of_share w m); auto. destruct HW as (_ & _ & Hv). lia.
+    + destruct (w_sok w) eqn:Hsok.
+      * destruct (share_spec w om HW HM Hreg Hsok) as (m & -> & Hc & _ & Hcont & Hp & _).
+        apply (MInv_of_current w m); auto.
+      * destruct (share_partial_state w om HM Hreg Hsok) as (m & -> & Hm & _). exact Hm.
     + unfold share. rewrite Hreg. exact HM.
   - split; cbn [fst snd]; auto. destruct om as [m|]; [|exact I]. exact HM.
   - split; cbn [fst snd]; auto. exact I.
 Qed.
 
-(* between the two halves of a state-file rewrite the invariants are those of the completed rewrite *)
-Definition settle (w : writer) : writer := if file_fresh w then w else wr_state_b w.
-Definition pinv' (st : pstate) : Prop := pinv (settle (fst st), snd st).
-
-Lemma WInv_fresh : forall w, WInv w -> file_fresh w = true.
-Proof.
-  intros w (_ & HF & _). unfold file_fresh. apply forallb_forall. intros h Hh.
-  rewrite Forall_forall in HF. apply Z.ltb_lt. auto.
-Qed.
-
-Lemma fresh_nil : forall w, w_file w = [] -> file_fresh w = true.
-Proof. intros w H. unfold file_fresh. now rewrite H. Qed.
-
-(* a file all of whose records are later than s, while nothing deposited is later than s, is empty *)
-Lemma fresh_after_a : forall w s, WInv w -> Forall (fun x => hit x <= s) (w_D w) ->
-  file_fresh (wr_state_a w s) = true -> w_file w = [].
-Proof.
-  intros w s (HD & _ & _) Hle Hf. unfold file_fresh, wr_state_a in Hf; cbn [w_state w_file sf_step] in Hf.
-  rewrite HD in Hle. apply Forall_app in Hle. destruct Hle as [_ Hle].
-  destruct (w_file w) as [|h tl]; auto. cbn [forallb] in Hf. apply andb_true_iff in Hf. destruct Hf as [Hf _].
-  apply Z.ltb_lt in Hf. inversion Hle; subst. lia.
-Qed.
-
-Lemma writer_eq : forall a b, w_D a = w_D b -> w_reg a = w_reg b -> w_name a = w_name b ->
-  w_state a = w_state b -> w_file a = w_file b -> w_vis a = w_vis b -> a = b.
-Proof. intros [] []; cbn; intros; subst; reflexivity. Qed.
-
-Lemma pinv_settle : forall w om, pinv (w, om) -> pinv (settle w, om).
-Proof.
-  intros w om H. unfold settle. destruct H as [HW HM]. cbn [fst snd] in *. rewrite (WInv_fresh _ HW). split; auto.
-Qed.
-
-Lemma pinv'_step : forall st e, pinv' st -> ev_ok true (fst st) e = true -> pinv' (pstep true true st e).
-Proof.
-  intros [w om] e Hinv Hok. unfold pinv' in *. cbn [fst snd] in *.
-  destruct (file_fresh w) eqn:Hfresh.
-  - (* the hills file is fresh: settle is the identity here *)
-    assert (Hs : settle w = w) by (unfold settle; now rewrite Hfresh). rewrite Hs in Hinv.
-    destruct e as [h|c|s|s| |s nn| | |].
-    + pose proof (pinv_step0 (w, om) (PDeposit h) Hinv Hok) as H. cbn [pstep fst snd] in *.
-      assert (Hp : pinv (wr_deposit w h, om)) by (apply H; intros; discriminate).
-      apply pinv_settle. exact Hp.
-    + pose proof (pinv_step0 (w, om) (PVis c) Hinv Hok) as H. cbn [pstep fst snd] in *.
-      assert (Hp : pinv (wr_vis w c, om)) by (apply H; intros; discriminate).
-      apply pinv_settle. exact Hp.
-    + pose proof (pinv_step0 (w, om) (PWState s) Hinv Hok) as H. cbn [pstep fst snd] in *.
-      assert (Hp : pinv (wr_state w s, om)) by (apply H; intros; discriminate).
-      apply pinv_settle. exact Hp.
-    + (* first half: whatever the file holds, the settled state is that of the whole rewrite *)
-      cbn [pstep fst snd ev_ok] in *. apply andb_true_iff in Hok. destruct Hok as [_ Hok].
-      destruct (steps_ok_spec _ _ Hok) as [H1 H2].
-      assert (Hp : pinv (wr_state w s, om)).
-      { apply (pinv_step0 (w, om) (PWState s) Hinv); try (intros; discriminate).
-        cbn [ev_ok fst]. now rewrite Hfresh, Hok. }
-      assert (E : settle (wr_state_a w s) = wr_state w s).
-      { unfold settle. destruct (file_fresh (wr_state_a w s)) eqn:Ef.
-        - pose proof (fresh_after_a w s (proj1 Hinv) H2 Ef) as Hnil.
-          destruct Hinv as [(HD & HF & Hv) _]. cbn [fst] in *. rewrite Hnil in Hv. cbn [length] in Hv.
-          apply writer_eq; cbn; auto. lia.
-        - apply writer_eq; reflexivity. }
-      rewrite E. exact Hp.
-    + (* second half from a fresh state: allowed only when the file is empty *)
-      cbn [pstep fst snd ev_ok] in *. rewrite Hfresh in Hok. cbn [negb orb] in Hok.
-      destruct (w_file w) as [|h tl] eqn:Hnil; [|discriminate].
-      assert (E : wr_state_b w = w).
-      { destruct Hinv as [(HD & HF & Hv) _]. cbn [fst] in *. rewrite Hnil in Hv. cbn [length] in Hv.
-        apply writer_eq; cbn; auto. lia. }
-      rewrite E, Hs. exact Hinv.
-    + pose proof (pinv_step0 (w, om) (PSetup s nn) Hinv Hok) as H. cbn [pstep fst snd] in *.
-      assert (Hp : pinv (wr_setup w s nn, om)) by (apply H; intros; discriminate).
-      apply pinv_settle. exact Hp.
-    + pose proof (pinv_step0 (w, om) RShare Hinv Hok) as H. cbn [pstep fst snd] in *.
-      rewrite Hs. apply H; intros; discriminate.
-    + pose proof (pinv_step0 (w, om) RWState Hinv Hok) as H. cbn [pstep fst snd] in *.
-      rewrite Hs. apply H; intros; discriminate.
-    + pose proof (pinv_step0 (w, om) RRestart Hinv Hok) as H. cbn [pstep fst snd] in *.
-      rewrite Hs. apply H; intros; discriminate.
-  - (* between the two halves: settle w = wr_state_b w *)
-    assert (Hs : settle w = wr_state_b w) by (unfold settle; now rewrite Hfresh). rewrite Hs in Hinv.
-    assert (Hsb : forall w', w_file w' = w_file w -> w_state w' = w_state w -> w_D w' = w_D w ->
-                  w_reg w' = w_reg w -> w_name w' = w_name w -> settle w' = wr_state_b w).
-    { intros w' Hf Hst HD Hr Hn. unfold settle, file_fresh. rewrite Hf, Hst. fold (file_fresh w). rewrite Hfresh.
-      apply writer_eq; cbn; auto. }
-    destruct e as [h|c|s|s| |s nn| | |]; cbn [pstep fst snd ev_ok] in *; try rewrite Hfresh in Hok;
-      cbn [andb negb orb] in Hok; try discriminate.
-    + rewrite (Hsb (wr_vis w c)); auto.
-    + assert (E : settle (wr_state_b w) = wr_state_b w) by (unfold settle; now rewrite fresh_nil).
-      rewrite E. exact Hinv.
-    + rewrite Hs. destruct Hinv as [HW HM]. split; cbn [fst snd] in *; auto.
-      destruct om as [m|]; [|exact I]. exact HM.
-    + rewrite Hs. destruct Hinv as [HW HM]. split; cbn [fst snd] in *; auto. exact I.
-Qed.
-
-Lemma pinv'_init : pinv' pinit.
-Proof. unfold pinv'. cbn. apply pinv_init. Qed.
-
-Lemma pinv_run : forall es st, pinv' st -> trace_ok true true true es st = true -> pinv' (prun true true es st).
+Lemma pinv_run : forall es st, pinv st -> trace_ok true true true es st = true -> pinv (prun true true es st).
 Proof.
   induction es as [|e tl IH]; intros st H Hok; [exact H|].
   cbn [trace_ok] in Hok. apply andb_true_iff in Hok. destruct Hok as [H1 H2].
-  cbn [prun fold_left]. apply IH; auto. apply pinv'_step; auto.
+  cbn [prun fold_left]. apply IH; auto. apply pinv_step; auto.
 Qed.
-
-Lemma settle_D : forall w, w_D (settle w) = w_D w.
-Proof. intros w. unfold settle. destruct (file_fresh w); reflexivity. Qed.
 
 (* at any moment of any trace: what the reader holds for the peer is a prefix of what the peer deposited *)
 Theorem meta_prefix_always : forall es w m, trace_ok true true true es pinit = true ->
   prun true true es pinit = (w, Some m) -> prefix (m_cont m) (w_D w).
 Proof.
-  intros es w m Hok Hrun. pose proof (pinv_run es pinit pinv'_init Hok) as H. rewrite Hrun in H.
-  unfold pinv' in H. cbn [fst snd] in H. rewrite <- settle_D.
-  destruct H as [(HD & _) (Hhas & Hk & HSle & Hcur & Hnc)]. cbn [fst snd] in *.
-  rewrite HD. destruct (current_dec (settle w) m) as [Hc|Hc].
+  intros es w m Hok Hrun. pose proof (pinv_run es pinit pinv_init Hok) as H. rewrite Hrun in H.
+  destruct H as [(HD & _) (Hnd & HSle & Hcur & Hnc)]. cbn [fst snd] in *.
+  rewrite HD. destruct (current_dec w m) as [Hc|Hc].
   - destruct (Hcur Hc) as (-> & _). apply prefix_app_l, firstn_prefix.
   - eapply prefix_trans; [apply (Hnc Hc)|apply prefix_app].
 Qed.
@@ -893,32 +862,41 @@ Proof.
   destruct (IH _ _ H2) as [H3 H4]. cbn [trace_ok prun fold_left]. rewrite H1, H3. auto.
 Qed.
 
-(* right after a replica_share() of the reader: everything of a registered peer that is visible
-   (its state file and the complete records of its hills file) is in the mirror, once and in order,
-   and nothing else than hills of the peer *)
+(* right after a replica_share() of the reader, at ANY moment of the peer's activity: everything of a registered
+   peer that is visible (its state file, if all of it is visible, and the complete records of its hills file) is in
+   the mirror, once and in order, and nothing else than hills of the peer; a partly visible state file leaves the
+   content untouched *)
 Theorem meta_share_complete : forall es w om, trace_ok true true true (es ++ [RShare]) pinit = true ->
   prun true true (es ++ [RShare]) pinit = (w, om) -> w_reg w = true ->
   exists m, om = Some m /\ prefix (visible w) (m_cont m) /\ prefix (m_cont m) (w_D w) /\
-            m_sync m = true.
+            (w_sok w = true -> m_sync m = true) /\
+            (w_sok w = false -> m_cont m = cont_of (prun true true es pinit)).
 Proof.
   intros es w om Hok Hrun Hreg. rewrite prun_app in Hrun.
-  destruct (trace_ok_app _ _ _ _ _ _ Hok) as [Hok1 Hok2].
-  pose proof (pinv_run es pinit pinv'_init Hok1) as H.
+  destruct (trace_ok_app _ _ _ _ _ _ Hok) as [Hok1 _].
+  pose proof (pinv_run es pinit pinv_init Hok1) as H.
   destruct (prun true true es pinit) as [w' om'] eqn:E. cbn [prun fold_left pstep] in Hrun.
-  injection Hrun as <- <-.
-  (* the reader exchanges only when the peer's hills file is fresh *)
-  cbn [trace_ok ev_ok fst negb orb] in Hok2. rewrite andb_true_r in Hok2.
-  unfold pinv' in H. cbn [fst snd] in H. unfold settle in H. rewrite Hok2 in H.
-  destruct H as [HW HM]. cbn [fst snd] in *.
-  destruct (share_spec w' om' HW HM Hreg) as (m & Hs & Hc & Hh & Hsy & Hcont & Hp).
-  exists m. split; auto. destruct HW as (HD & HF & Hv). repeat split; auto.
-  - unfold visible. rewrite Hcont. apply prefix_app_l. apply firstn_prefix_le. lia.
-  - rewrite Hcont, HD. apply prefix_app_l, firstn_prefix.
+  injection Hrun as <- <-. destruct H as [HW HM]. cbn [fst snd] in *.
+  destruct (w_sok w') eqn:Hsok.
+  - destruct (share_spec w' om' HW HM Hreg Hsok) as (m & Hs & Hc & Hsy & Hcont & Hp & Hvis).
+    exists m. split; auto. destruct HW as (HD & Hlf & HF & Hv).
+    split; [|split; [|split; [auto|discriminate]]].
+    + unfold visible. rewrite Hsok, Hcont. apply prefix_app_l.
+      destruct Hlf as [Hl|[Hf Hv0]].
+      * unfold wF. rewrite Hl. cbn [app]. apply firstn_prefix_le. specialize (Hvis Hl). lia.
+      * rewrite Hf, firstn_nil. exists (firstn (Z.to_nat (m_pos m)) (wF w')). reflexivity.
+    + rewrite Hcont, HD. apply prefix_app_l, firstn_prefix.
+  - destruct (share_partial_state w' om' HM Hreg Hsok) as (m & Hs & Hm & Hcont).
+    exists m. split; auto. split; [|split; [|split; [discriminate|]]].
+    + unfold visible. rewrite Hsok. exists (m_cont m). reflexivity.
+    + destruct Hm as (Hnd & HSle & Hcur & Hnc). destruct HW as (HD & _). rewrite HD.
+      destruct (current_dec w' m) as [Hc|Hc].
+      * destruct (Hcur Hc) as (-> & _). apply prefix_app_l, firstn_prefix.
+      * eapply prefix_trans; [apply (Hnc Hc)|apply prefix_app].
+    + intros _. rewrite Hcont. unfold cont_of. cbn [snd]. destruct om'; reflexivity.
 Qed.
 
-(* a (re)read state file replaces whatever the mirror held: the result does not depend on the previous
-   content or read position *)
-Theorem meta_state_replaces : forall w m, w_reg w = true ->
+Theorem meta_state_replaces : forall w m, w_reg w = true -> w_sok w = true ->
   (m_sync m = false \/ m_has m = false \/ name_is (m_name m) (w_name w) = false \/
    (m_S m <> sf_step (w_state w) /\ m_has m = true)) ->
   exists m', share true true w (Some m) = Some m' /\
@@ -926,7 +904,7 @@ Theorem meta_state_replaces : forall w m, w_reg w = true ->
                 filter (keep (sf_step (w_state w))) (firstn (Z.to_nat (w_vis w)) (w_file w)) /\
     m_S m' = sf_step (w_state w) /\ m_pos m' = Z.max 0 (w_vis w).
 Proof.
-  intros w m Hreg Hcase. unfold share. rewrite Hreg. cbn [negb].
+  intros w m Hreg Hsok Hcase. unfold share. rewrite Hreg, Hsok. cbn [negb].
   set (m1 := if name_is (m_name m) (w_name w) then m
              else mkM (Some (w_name w)) false (m_has m) (m_pos m) (m_S m) (m_cont m)).
   set (m2 := if true && m_has m1 && m_sync m1 && negb (sf_step (w_state w) =? m_S m1)
@@ -977,7 +955,6 @@ Definition meta_w2 : list pev :=
   [PSetup 0 false; PDeposit (H 1); PDeposit (H 2); PVis 2; RShare;
    PWState 2; PDeposit (H 3); PDeposit (H 4); PDeposit (H 5); PVis 3; RShare].
 
-Definition cont_of (st : pstate) : list hill := match snd st with Some m => m_cont m | None => [] end.
 
 Lemma meta_old1_refuted : exists es, trace_ok true false false es pinit = true /\
   prefixb (cont_of (prun false false es pinit)) (w_D (fst (prun false false es pinit))) = false.
@@ -993,22 +970,33 @@ Lemma meta_witnesses_repaired :
   trace_ok true true true meta_w1 pinit = true /\ trace_ok true true true meta_w2 pinit = true.
 Proof. vm_compute. auto. Qed.
 
-(* the remaining hole: the reader exchanges between the two halves of the peer's state-file rewrite
-   (state file renamed, old hills file still there).  It rereads the state file, skips the old records by
-   their steps and remembers their number; once the hills file has been restarted it reads the new file from
-   that position: hills 3 and 4 are lost until the next state file *)
+(* the order of the two halves before repair 8 (state file renamed, then hills file restarted): a reader that
+   exchanges in between rereads the state file, skips the old records by their steps and remembers their number;
+   once the hills file has been restarted it reads the new file from that position: hills 3 and 4 are lost
+   until the next state file *)
 Definition meta_w3 : list pev :=
   [PSetup 0 false; PDeposit (H 1); PDeposit (H 2); PVis 2; RShare;
    PWStateA 2; RShare; PWStateB; PDeposit (H 3); PDeposit (H 4); PDeposit (H 5); PVis 3; RShare].
 
-Lemma meta_midway_refuted : exists es, trace_ok false true true es pinit = true /\
+Lemma meta_old_order_refuted : exists es, trace_ok false true true es pinit = true /\
   prefixb (cont_of (prun true true es pinit)) (w_D (fst (prun true true es pinit))) = false.
 Proof. exists meta_w3. split; vm_compute; reflexivity. Qed.
+
+(* the same scenario with the halves in the order of the repaired code *)
+Definition meta_w3_new : list pev :=
+  [PSetup 0 false; PDeposit (H 1); PDeposit (H 2); PVis 2; RShare;
+   PWStateB; RShare; PWStateA 2; PDeposit (H 3); PDeposit (H 4); PDeposit (H 5); PVis 3; RShare].
+
+Lemma meta_w3_new_ok : trace_ok true true true meta_w3_new pinit = true /\
+  cont_of (prun true true meta_w3_new pinit) = [H 1; H 2; H 3; H 4; H 5].
+Proof. vm_compute. auto. Qed.
 
 Lemma meta_prefix_both :
   (forall es w m, trace_ok true true true es pinit = true ->
      prun true true es pinit = (w, Some m) -> prefix (m_cont m) (w_D w)) /\
   (forall es w om, trace_ok true true true (es ++ [RShare]) pinit = true ->
      prun true true (es ++ [RShare]) pinit = (w, om) -> w_reg w = true ->
-     exists m, om = Some m /\ prefix (visible w) (m_cont m) /\ prefix (m_cont m) (w_D w) /\ m_sync m = true).
+     exists m, om = Some m /\ prefix (visible w) (m_cont m) /\ prefix (m_cont m) (w_D w) /\
+               (w_sok w = true -> m_sync m = true) /\
+               (w_sok w = false -> m_cont m = cont_of (prun true true es pinit))).
 Proof. split; [exact meta_prefix_always|exact meta_share_complete]. Qed.
